@@ -75,14 +75,25 @@ def base_lib(language, r):
     return libgen.Lib("qlib", language, decls)
 
 
-def run_config(work, tag, lib, flags, overrides=None, same_dir=False):
-    """Run real Shroud with five distinct output directories.  Returns dict with listings."""
+DIRMODES = {
+    "distinct": ("cf", "py", "lua", "yaml"),
+    "outdir-only": (),
+    "python-only": ("py",),
+    "cf-lua": ("cf", "lua"),
+}
+
+
+def run_config(work, tag, lib, flags, overrides=None, dirmode="distinct"):
+    """Run real Shroud with the output-directory options assigned per `dirmode` (kinds not assigned fall
+    back to --outdir).  Returns dict with listings; res["dirs"][kind] is the directory designated for that kind."""
     d = os.path.join(work, tag)
     os.makedirs(d)
-    names = ("out", "cf", "py", "lua", "yaml", "log")
-    dirs = {k: os.path.join(d, k) for k in names}
-    for p in dirs.values():
-        os.makedirs(p)
+    assigned = DIRMODES[dirmode]
+    dirs = {"out": os.path.join(d, "out"), "log": os.path.join(d, "log")}
+    for k in ("cf", "py", "lua", "yaml"):
+        dirs[k] = os.path.join(d, k) if k in assigned else dirs["out"]
+    for p in set(dirs.values()):
+        os.makedirs(p, exist_ok=True)
     lib.options = dict(wrap_c=bool(flags[0]), wrap_fortran=bool(flags[1]), wrap_python=bool(flags[2]), wrap_lua=bool(flags[3]))
     import copy
     dd = copy.deepcopy(lib.todict())
@@ -95,14 +106,26 @@ def run_config(work, tag, lib, flags, overrides=None, same_dir=False):
     import yaml
     y = shroudrun.write_yaml(d, "qlib.yaml", yaml.safe_dump(dd, sort_keys=False))
     cf, ff = os.path.join(d, "cfiles.txt"), os.path.join(d, "ffiles.txt")
-    cfg, exc, out = shroudrun.run_inproc([y], dirs["out"], logdir=dirs["log"], outdir_c_fortran=dirs["cf"],
-                                         outdir_python=dirs["py"], outdir_lua=dirs["lua"], outdir_yaml=dirs["yaml"],
-                                         cfiles=cf, ffiles=ff)
-    res = {"exc": exc, "dirs": dirs, "yaml": open(y).read(), "flags": flags, "overrides": overrides}
-    res["list"] = {k: sorted(os.listdir(p)) for k, p in dirs.items()}
+    kw = {}
+    if "cf" in assigned:
+        kw["outdir_c_fortran"] = dirs["cf"]
+    if "py" in assigned:
+        kw["outdir_python"] = dirs["py"]
+    if "lua" in assigned:
+        kw["outdir_lua"] = dirs["lua"]
+    if "yaml" in assigned:
+        kw["outdir_yaml"] = dirs["yaml"]
+    cfg, exc, out = shroudrun.run_inproc([y], dirs["out"], logdir=dirs["log"], cfiles=cf, ffiles=ff, **kw)
+    res = {"exc": exc, "dirs": dirs, "yaml": open(y).read(), "flags": flags, "overrides": overrides, "dirmode": dirmode}
+    # listings keyed by physical directory role: a directory shared by several kinds is listed once under "out"
+    phys = {}
+    for k in ("out", "cf", "py", "lua", "yaml", "log"):
+        phys.setdefault(dirs[k], k)
+    res["list"] = {k: sorted(os.listdir(p)) for p, k in phys.items()}
     res["cfiles"] = open(cf).read().split() if os.path.exists(cf) else None
     res["ffiles"] = open(ff).read().split() if os.path.exists(ff) else None
-    res["tree"] = {k: shroudrun.read_tree(p) for k, p in dirs.items()}
+    res["tree"] = {k: shroudrun.read_tree(p) for p, k in phys.items()}
+    res["phys"] = {k: phys[dirs[k]] for k in dirs}     # kind -> listing key holding that kind's directory
     return res
 
 
@@ -111,7 +134,7 @@ def kind_files(res):
     k = {"c": [], "fortran": [], "python": [], "lua": [], "other": []}
     for dk, names in res["list"].items():
         for n in names:
-            if dk == "log" or (dk == "yaml"):
+            if dk == "log" or (dk == "yaml") or n.endswith((".json", ".log", "_types.yaml")):
                 k["other"].append((dk, n))
             elif n.endswith(".f") or n.endswith(".f90") or n.endswith(".F"):
                 k["fortran"].append((dk, n))
@@ -131,7 +154,7 @@ def text_of(res, kind):
 
 def check_config(ctx, res, tag):
     """single-run obligations: listings, directories, file lists"""
-    rp = {"yaml": res["yaml"], "flags": res["flags"], "overrides": res["overrides"]}
+    rp = {"yaml": res["yaml"], "flags": res["flags"], "overrides": res["overrides"], "dirmode": res.get("dirmode")}
     if res["exc"] is not None:
         ctx.fail("c15:exception:%s" % type(res["exc"]).__name__, "Shroud failed on an admitted description: %r" % (res["exc"],), rp)
         return
@@ -145,19 +168,19 @@ def check_config(ctx, res, tag):
             ctx.fail("c15:files-for-off-language:%s" % kind,
                      "%s wrapper is off for the whole library but files were written: %s" % (kind, kf[kind][:4]), rp)
     # directories
-    want = {"c": "cf", "fortran": "cf", "lua": "lua"}
+    want = {"c": res["phys"]["cf"], "fortran": res["phys"]["cf"], "lua": res["phys"]["lua"]}
     for kind, dk in want.items():
         for (d, n) in kf[kind]:
             if d != dk:
                 ctx.fail("c15:wrong-directory:%s:%s" % (kind, re.sub(r"qlib", "<lib>", n)),
                          "%s file %s written into the %s directory instead of %s" % (kind, n, d, dk), rp)
     for (d, n) in kf["python"]:
-        if not (d == "py" or (d == "out" and n == "setup.py")):
+        if not (d == res["phys"]["py"] or (d == res["phys"]["out"] and n == "setup.py")):
             ctx.fail("c15:wrong-directory:python:%s" % n, "python file %s written into %s" % (n, d), rp)
     # file lists
     cdir, = {res["dirs"]["cf"]}
-    written_c = sorted(os.path.join(cdir, n) for d, n in kf["c"] if d == "cf")
-    written_f = sorted(os.path.join(cdir, n) for d, n in kf["fortran"] if d == "cf")
+    written_c = sorted(os.path.join(cdir, n) for d, n in kf["c"] if d == res["phys"]["cf"])
+    written_f = sorted(os.path.join(cdir, n) for d, n in kf["fortran"] if d == res["phys"]["cf"])
     if res["cfiles"] is None or sorted(res["cfiles"]) != written_c:
         ctx.fail("c15:cfiles-mismatch", "--cfiles lists %s but the C/C++ files written are %s" % (
             res["cfiles"], [os.path.basename(x) for x in written_c]), rp)
@@ -208,12 +231,20 @@ def run(ctx):
                 check_config(ctx, res, lname)
                 n += 1
             ctx.sample({"library": lname, "flags": [1, 1, 1, 1], "listing": results[(1, 1, 1, 1)]["list"]}, cap=3)
+            # other assignments of the output-directory options
+            for dm in ("outdir-only", "python-only", "cf-lua"):
+                for f in (combos if thorough else [(1, 1, 1, 1), (1, 0, 0, 1), (0, 0, 1, 1)]):
+                    res = run_config(work, "%s-%s-%d%d%d%d" % ((lname, dm) + f), lib, f, dirmode=dm)
+                    ctx.count(1)
+                    ctx.nontrivial((lname, dm, f))
+                    check_config(ctx, res, lname)
+                    common.rmtree(os.path.dirname(res["dirs"]["out"]))
             # byte identity of C and Fortran files across python/lua on/off
             for wc, wf in ((0, 0), (1, 0), (1, 1)):
                 ref = results[(wc, wf, 0, 0)]
                 for wp, wl in ((0, 1), (1, 0), (1, 1)):
                     oth = results[(wc, wf, wp, wl)]
-                    a, b = ref["tree"]["cf"], oth["tree"]["cf"]
+                    a, b = ref["tree"][ref["phys"]["cf"]], oth["tree"][oth["phys"]["cf"]]
                     d = sorted(f for f in set(a) | set(b) if a.get(f) != b.get(f))
                     ctx.count(1)
                     if d:
